@@ -571,7 +571,7 @@ def file_level(ctx, real, files, quick, ms_per_byte):
     for fname, mode in files:
         data = open(os.path.join(CORPUS, fname), "rb").read()
         n_random = 250 if quick else 6000
-        trunc = max(1, len(data) // 160) if quick else 1
+        trunc = (1 if len(data) < 1500 else max(1, len(data) // 160)) if quick else 1
         for m in mutants(ctx, fname, data, n_random, lengths, trunc, bs):
             all_muts.append((mode, m))
     items = []
